@@ -85,6 +85,9 @@ def to_int_args(e, acc=None):
     return acc
 
 
+NEEDED_SOLVER = set()  # ground atoms that z3.simplify alone did not decide (a solver call with a time budget was needed)
+
+
 @functools.lru_cache(maxsize=200_000)
 def _decide_text(text, names, values):
     decls = {n: z3.String(n) for n in names}
@@ -100,6 +103,7 @@ def _decide_text(text, names, values):
         return True
     if z3.is_false(s):
         return False
+    NEEDED_SOLVER.add((text, names, values))
     sol = z3.Solver()
     sol.set("timeout", 3000)
     sol.add(z3.Not(f))
@@ -109,6 +113,11 @@ def _decide_text(text, names, values):
     if r == z3.sat:
         return False
     return UNKNOWN
+
+
+def needed_solver(e, env):
+    names = tuple(variables(e))
+    return (to_smtlib(e), names, tuple(env[n] for n in names)) in NEEDED_SOLVER
 
 
 def decide(e, env):
